@@ -63,6 +63,7 @@ type grammarStats struct {
 	maxAlloc    uint64
 	maxAllocIn  string
 	allocProbed int
+	szRecords   int // size-field inputs replayed on the raw entry points
 	probes      []probeIn
 	probeSeen   map[string]bool
 	sample      []interface{}
